@@ -355,9 +355,21 @@ def check_merge(s, rng, tmpdir, idx):
             with open(outpath, 'wb') as f:
                 f.write(preexisting)
         argv += ['-o', outpath]
-    judge_merge(s, argv, paths, flavour, inc, non_strict, outfile, outpath, preexisting)
-    if os.path.exists(outpath):
-        os.unlink(outpath)
+    # sometimes -o names a bare file in the working directory (no directory part at all)
+    bare = outfile and preexisting is None and '+out-is-input' not in flavour and rng.random() < 0.25
+    cwd = os.getcwd()
+    try:
+        if bare:
+            os.chdir(tmpdir)
+            outpath = 'out-%d.xml' % idx
+            argv[argv.index('-o') + 1] = outpath
+            flavour += '+bare-outfile'
+            s.hist['cli:merge:bare-outfile'] += 1
+        judge_merge(s, argv, paths, flavour, inc, non_strict, outfile, outpath, preexisting)
+        if os.path.exists(outpath):
+            os.unlink(outpath)
+    finally:
+        os.chdir(cwd)
 
 
 def judge_merge(s, argv, paths, flavour, inc, non_strict, outfile, outpath, preexisting):
@@ -661,8 +673,12 @@ def replay(s, data):
         elif w.get('judge') == 'merge':
             q = w['params']
             pre = None if q['preexisting'] is None else q['preexisting'].encode('latin-1')
+            cwd = os.getcwd()
+            if q['outfile'] and not os.path.dirname(q['outpath']):
+                os.chdir(tempfile.gettempdir())         # a bare file name: relative to a scratch working directory
             if q['outfile']:
-                os.makedirs(os.path.dirname(q['outpath']), exist_ok=True)
+                if os.path.dirname(q['outpath']):
+                    os.makedirs(os.path.dirname(q['outpath']), exist_ok=True)
                 if pre is not None:
                     open(q['outpath'], 'wb').write(pre)
                 elif os.path.exists(q['outpath']):
@@ -671,6 +687,7 @@ def replay(s, data):
                         q['outfile'], q['outpath'], pre)
             if os.path.exists(q['outpath']):
                 os.unlink(q['outpath'])
+            os.chdir(cwd)
         elif w.get('judge') == 'subprocess':
             q = w['params']
             judge_subprocess(s, w['argv'], [p for p, _, _ in w['files']], q['flavour'], q['inc'], q['non_strict'],
